@@ -272,6 +272,13 @@ def kinds(t, acc=None):
     return acc
 
 
+KNOWN = frozenset("""Int BytesInteger Float VarInt ZigZag Bytes GreedyBytes Flag BitsInteger GreedyString CString PascalString PaddedString
+Enum FlagsEnum Mapping ConstB ConstV Pass Padding Computed Tell Index Terminated Check StopIf Error Seek Renamed OneOf NoneOf Hex HexDump
+Prefixed PrefixedArray FixedSized Padded Aligned NullTerminated NullStripped OffsettedEnd Array GreedyRange RepeatUntil Optional Select If
+IfThenElse Switch Rebuild Default ByteSwapped BitsSwapped ProcessXor ProcessRotateLeft Bitwise Bytewise RawCopy Struct Sequence FocusedSeq
+Union LazyStruct LazyArray Lazy Pointer Peek""".split())
+
+
 def sig_of(t, depth=2):
     """signature part naming the responsible construct classes: the outermost `depth` kinds"""
     ks = []
@@ -279,7 +286,7 @@ def sig_of(t, depth=2):
     def walk(x, d):
         if d == 0 or not (isinstance(x, list) and x and isinstance(x[0], str)):
             return
-        if x[0] in ("this", "item", "up", "path", "obj", "k", "bin", "un", "fn"):
+        if x[0] not in KNOWN:
             return
         name = x[0]
         if name == "Int":
